@@ -106,7 +106,7 @@ _c("C05", "fault_enumeration",
    "Liveness is restated as: delivered within 45 virtual seconds after the network heals while the connection is open. Lengths around every "
    "boundary are enumerated per MTU for client/server x send/send_guaranteed; targeted loss of the k-th carrying datagram and of acks plus "
    "seeded profiles (lossy, dup, reorder, slow, very slow, one-way) are enumerated. Undelivered messages are classified by where they are stuck.",
-   "An unbounded 'eventually' cannot be decided by a finite run; the horizon is 40 retry rounds. One open finding (reassembly context purged by age).")
+   "An unbounded 'eventually' cannot be decided by a finite run; the horizon is 40 retry rounds. Two open findings (F1 reassembly context purged by age; F3 client-reads-one-datagram-per-update livelock), reported as KNOWN-FINDING; see known_findings.json.")
 _c("C06", "exploration",
    "history checker: delivered payloads byte-identical to sent ones (ids in payloads); wire-shape monitor on fragments (monitor's own decoder); all arrival orders of small fragment sets",
    "lockstep",
@@ -120,7 +120,7 @@ _c("C07", "fault_enumeration",
    "Every datagram emitted is tracked until the real code resolves it; the model says acked iff an accepted inbound datagram names it, "
    "timed out within [timeout, timeout + send interval + 2 ticks] otherwise. Callbacks of retry-NONE and guaranteed sends are counted at "
    "quiescence. Fault classes as in C05 plus stale replays and forged/rewritten ack fields.",
-   "Timing slack of one send interval + two ticks. One open finding (consequence of the C05 finding).")
+   "Timing slack of one send interval + two ticks. Two open findings (consequences of the C05 findings F1 and F3).")
 _c("C08", "exploration",
    "contracts against integer ring arithmetic (all values x boundary offsets); class-wide shadow model of BitField; ack fields of every emitted header compared with the monitor's acceptance record",
    "contracts+lockstep",
